@@ -8,7 +8,7 @@ S=/tmp/sm/$NAME
 rm -rf $S; mkdir -p $S
 git -C /repo worktree add --detach -f $S/repo HEAD >/dev/null 2>&1 || exit 9
 cp /repo/Cargo.lock $S/repo/
-(cd $S/repo && git apply /verif/seeded/$NAME/patch.diff) || { echo "$NAME patch does not apply"; git -C /repo worktree remove --force $S/repo; exit 8; }
+(cd $S/repo && git apply ${SEEDDIR:-/verif/seeded}/$NAME/patch.diff) || { echo "$NAME patch does not apply"; git -C /repo worktree remove --force $S/repo; exit 8; }
 mkdir -p $S/harness
 cp -r /verif/harness/src /verif/harness/Cargo.toml /verif/harness/Cargo.lock /verif/harness/.cargo $S/harness/ 2>/dev/null
 sed -i "s#path = \"/repo\"#path = \"$S/repo\"#" $S/harness/Cargo.toml
